@@ -105,6 +105,16 @@ FAMILIES = {
     'req_header_name_spaces': ('req', BIG, pump(RQ + b'X-S', b' ', b': v\r\n\r\n')),
     'req_header_cr_run': ('req', BIG, pump(RQ + b'X-C: v', b'\r', b'\n\r\n')),
     'req_junk_after_request': ('req', {}, pump(OKREQ, b'junk line\r\n', b'')),
+    'res_nocolon_header_folded': ('res', BIG, pump(RS + b'X-Note\r\n', b' b\r\n', b'Content-Length: 0\r\n\r\n')),
+    'res_nocolon_header_folded_dflt': ('res', {}, pump(RS + b'X-Note\r\n', b' b\r\n', b'Content-Length: 0\r\n\r\n')),
+    'res_folds_after_status_line': ('res', {}, pump(RS, b' b\r\n', b'Content-Length: 0\r\n\r\n')),
+    'res_folds_with_colons': ('res', {}, pump(RS + b'X-F: a\r\n', b' b: c\r\n', b'Content-Length: 0\r\n\r\n')),
+    'res_trailer_nocolon_folded': ('res', {}, pump(RS + TE + b'1\r\na\r\n0\r\nT-Note\r\n', b' b\r\n', b'\r\n')),
+    'req_nocolon_header_folded': ('req', BIG, pump(RQ + b'X-Note\r\n', b' b\r\n', RQE)),
+    'req_nocolon_header_folded_dflt': ('req', {}, pump(RQ + b'X-Note\r\n', b' b\r\n', RQE)),
+    'req_folds_after_request_line': ('req', {}, pump(b'GET / HTTP/1.1\r\n', b' b\r\n', b'Host: h\r\n\r\n')),
+    'req_folds_with_colons': ('req', {}, pump(RQ + b'X-F: a\r\n', b' b: c\r\n', RQE)),
+    'req_trailer_nocolon_folded': ('req', {}, pump(POSTH + TE + b'1\r\na\r\n0\r\nT-Note\r\n', b' b\r\n', b'\r\n')),
     'req_trailers_distinct': ('req', {}, pump(POSTH + TE + b'1\r\na\r\n0\r\n', b'T-%d: v\r\n', b'\r\n')),
     'req_urlencoded_body': ('req', {'URLENC_PARSER': 1}, body_cl(UEH, b'x=1', b'&p%d=v%%41', b'')),
     'req_urlencoded_body_chunks': ('req', {'URLENC_PARSER': 1}, body_chunked_each(UEH, b'&p%d=v%%41')),
